@@ -41,8 +41,13 @@ def obligations(prop="C20"):
             src = [ast.unparse(s) for s in h.body]
             catches = ast.unparse(h.type) == "Exception" if h.type is not None else False
             reraise_iff_not_dbg = any(s.replace(" ", "").startswith("ifnotsettings.dbg:") and "raise" in s for s in src)
-            names_file = any(s.startswith("warn(") and "relative_path" in s for s in src)
-            continues = src and src[-1] == "continue"
+            from contracts import astform
+            names_file = any(isinstance(x, ast.Call) and ast.unparse(x.func) == "warn" and ("relative_path" in ast.unparse(x) or "filename" in astform.text(init, x)) for s in h.body for x in ast.walk(s))
+            # the handler goes on with the next file: it ends in `continue`, or it falls off its end and the try statement is the last statement of the loop body; nothing in it leaves the loop
+            # otherwise than by the re-raise
+            leaves = [x for s in h.body for x in ast.walk(s) if isinstance(x, (ast.Break, ast.Return))]
+            falls_through = bool(h.body) and not isinstance(h.body[-1], ast.Raise) and loops[0].body[-1] is tries[0] and not tries[0].finalbody
+            continues = bool(src) and not leaves and (src[-1] == "continue" or falls_through)
             ok_handler = catches and reraise_iff_not_dbg and names_file and continues
             detail = f"catches Exception: {catches}; re-raises iff not dbg: {reraise_iff_not_dbg}; names the file: {names_file}; continues: {continues}"
             ok_scope = any("_fortran_file(" in ast.unparse(s) for s in tries[0].body)
